@@ -30,6 +30,7 @@ EXPLANATION = (
     ' (Rg6) cached rows were computed under the map-removal setting in force (shared with C12-K1); (Rg7) nothing outside the Balancer switches the removal off.'
     ' Rg2 also requires that no rewrite passes a count argument.'
     ' (Rg8) input_reaction, the text unsolved rows are reset to, is a copy of the reaction column taken right after map removal by a single writer (shared with C02-T2).'
+    ' (Rg9) no digit characters are stripped off bracket-atom text on the map-removal path (callbacks of re.sub followed).'
 )
 ASSUMPTIONS = [
     "SMILES implicit-hydrogen rule: smallest allowed valence >= bond order sum (OpenSMILES; RDKit's valence list)",
